@@ -21,6 +21,7 @@
 -/
 import TypedpyModel.Lemmas.TrustedCtor
 import TypedpyModel.Lemmas.TrustedMap
+import TypedpyModel.Lemmas.TrustedExh
 import TypedpyModel.Lemmas.Fast
 import TypedpyModel.Lemmas.FastMap
 import TypedpyModel.Lemmas.Mappers
@@ -882,5 +883,16 @@ theorem fast_mapper_full_example :
     ∧ innerHas "one" "firstName" (fastSerialize exFastFullEnv [] [] false false exFastFullOuter exFastFullX) = true
     ∧ innerHas "one" "first_name" (fastSerialize exFastFullEnv [] [] false false exFastFullOuter exFastFullX) = false := by
   decide
+
+/-! ## 8. the partition "proved region / named defect" is exhaustive -/
+
+/-- every class declaration lies inside the proved region of trusted deserialization (`tsafeCls`) or
+    carries at least one named tag of `declDefects` (a known finding, an "…:unproved" shape, or
+    "ineligible-shape"): the check can never meet a class outside the region without a name for it -/
+theorem trusted_region_exhaustive (c : ClassOpts) (fields : List (String × FieldDecl)) (ds : List (String × PyVal)) :
+    tsafeCls (.struct c fields ds) = true ∨ declDefects (.struct c fields ds) ≠ [] :=
+  c10_region_exhaustive c fields ds
+
+example : tsafeCls cxOptImmSet = false ∧ declDefects cxOptImmSet = ["unnormalised:optional-immutable-set"] := by decide
 
 end Typedpy.C10
